@@ -98,11 +98,13 @@ where
                 stats.frozen = false;
                 let out = match res {
                     Ok(()) => None,
-                    Err(TestError::Fail(_, minimal)) => {
+                    Err(TestError::Fail(reason, minimal)) => {
                         let mut tmp = Stats::default();
-                        match test(&minimal, &mut tmp) {
-                            Err(f) => Some(Ok(Violation { replay: to_replay(&minimal, &f, shard), fail: f })),
-                            Ok(()) => Some(Err("shrunk case did not fail when re-run".to_string())),
+                        match guard(|| test(&minimal, &mut tmp)) {
+                            Ok(Err(f)) => Some(Ok(Violation { replay: to_replay(&minimal, &f, shard), fail: f })),
+                            Ok(Ok(())) => Some(Err("shrunk case did not fail when re-run".to_string())),
+                            // a panic of the harness itself is never a violation
+                            Err(p) => Some(Err(format!("harness panicked ({}; proptest said: {})", p, reason))),
                         }
                     }
                     Err(TestError::Abort(r)) => Some(Err(format!("proptest aborted: {}", r))),
@@ -398,7 +400,7 @@ pub fn c15_valid_diagram(p: &gen::PosSpec, st: &mut Stats) -> Check {
             let printed = guard(|| g.to_string()).map_err(|e| Fail::new("C15:print_panic", e))?;
             ensure!(printed == text, "C15:reprint", "printed form differs from the diagram it was parsed from:\n{}\nvs\n{}", printed, text);
             if p.move_number >= 10 || !p.gold_to_move {
-                st.nontrivial(fp_combine(p.board.fingerprint(), p.move_number as u64 * 2 + p.gold_to_move as u64));
+                st.nontrivial(fp_combine(p.board.fingerprint(), (p.move_number as u64).wrapping_mul(2).wrapping_add(p.gold_to_move as u64)));
             }
             Ok(())
         }
